@@ -168,6 +168,38 @@ func (m *Machine) concretizeRange(t *sym.Term, c uint64, lo, hi int64) {
 	}
 }
 
+// pinDeep fixes every symbolic component of v to its concrete value WITHOUT
+// enumerating alternatives. Only used where the value merely feeds message
+// text that no property observes (fmt.Errorf arguments).
+func (m *Machine) pinDeep(v value) value {
+	switch v := v.(type) {
+	case *symv:
+		switch v.t.Sort.K {
+		case sym.KBool:
+			if v.c.(bool) {
+				m.AssumeFixed(v.t, "pin")
+			} else {
+				m.AssumeFixed(m.Ctx.Not(v.t), "pin")
+			}
+		case sym.KBV:
+			m.AssumeFixed(m.Ctx.Eq(v.t, m.Ctx.BVC(v.t.Sort.W, bitsOf(v.c))), "pin")
+		case sym.KFP:
+			m.AssumeFixed(m.Ctx.Eq(v.t, m.Ctx.FPC(v.c.(float64))), "pin")
+		}
+		return v.c
+	case *symstr:
+		for i, t := range v.b {
+			if t != nil {
+				m.AssumeFixed(m.Ctx.Eq(t, m.Ctx.BVC(8, uint64(v.s[i]))), "pin")
+			}
+		}
+		return v.s
+	case iface:
+		return iface{v.t, m.pinDeep(v.v)}
+	}
+	return v
+}
+
 // concretizeDeep pins every symbolic component reachable by value (not through pointers).
 func (m *Machine) concretizeDeep(v value) value {
 	switch v := v.(type) {
